@@ -36,7 +36,7 @@ func (w *World) VerifyFunc(key string) (res *FuncResult) {
 		strs: map[string]int{}, errs: map[types.Object]string{}, frameArrs: map[string][]arrRange{},
 		modPaths: map[string]bool{}, anchorCnt: map[*Anchor]int{}, anchorCntAfter: map[*Anchor]int{},
 		ghostInLoop: map[string]bool{}, loopsUsed: map[int]bool{}, synthTypes: map[ast.Expr]types.Type{},
-		ifaceObj: map[string]Ptr{}, loopIdx: map[ast.Stmt]int{}}
+		ifaceObj: map[string]Ptr{}, anchorIdx: map[*ast.IndexExpr]string{}, loopIdx: map[ast.Stmt]int{}}
 	res.Ctx = x.fc
 	defer func() {
 		if r := recover(); r != nil {
@@ -302,6 +302,12 @@ func (x *Exec) recordInputs(st *State, path, goPath string, t types.Type) {
 		sv := st.vars[path].(Slice)
 		in := InputLeaf{Path: goPath, Kind: "slice", Term: sv.Len, Go: types.TypeString(t, nil),
 			Aux: map[string]string{"cap": sv.Cap, "arr": sv.Arr, "off": sv.Off}}
+		for _, lf := range x.leaves(sv.Elem) {
+			if strings.Contains(lf.Path, "#") {
+				continue
+			}
+			in.Elems = append(in.Elems, ElemLeaf{Field: lf.Path, Heap: x.heap(st, sv.Elem, lf)})
+		}
 		x.fc.inputs = append(x.fc.inputs, in)
 	case TFunc, TIface, TOther:
 	default:
